@@ -349,6 +349,13 @@ class ForceMatrix:
             for e in edges_to_use:
                 self.frame.edges[e].tension = float(xres[index])
 
+        # big edges excluded by the angle limit were not inferred: they must not keep the value of an earlier solve
+        for element in self.frame.internal_big_edges_vertices:
+            if element not in self.big_edges_to_use:
+                for vid in range(0, len(element)-1):
+                    for e in set(self.frame.vertices[element[vid]].ownEdges) & set(self.frame.vertices[element[vid+1]].ownEdges):
+                        self.frame.edges[e].tension = 0
+
         xres = xres[:-1]
         xres = self.get_solution_no_discarded(xres)
         self.force_dictionary = {}
